@@ -77,6 +77,29 @@ fn phase_of(arg0: &str) -> Option<bool> {
     }
 }
 
+/// `preexisting` content standing for "a directory sits at this path" (an output that has to be
+/// written there cannot be: an error after the callback).
+pub const PREEXISTING_DIR: &str = "\u{1}dir";
+
+/// Output files the build result provides (relative to the world root).
+fn provided_outputs(b: &BuildScript) -> Vec<String> {
+    let ext = |f: u8| ["cdx", "spdx", "syft"][usize::from(f.min(2))];
+    let mut v = Vec::new();
+    if b.launch.is_some() {
+        v.push("layers/launch.toml".to_string());
+    }
+    if b.store.is_some() {
+        v.push("layers/store.toml".to_string());
+    }
+    for sb in &b.build_sboms {
+        v.push(format!("layers/build.sbom.{}.json", ext(sb.format)));
+    }
+    for sb in &b.launch_sboms {
+        v.push(format!("layers/launch.sbom.{}.json", ext(sb.format)));
+    }
+    v
+}
+
 pub fn expect(s: &Scenario) -> Expect {
     match &s.desc {
         DescKind::Unsupported(_) | DescKind::NonNumeric(_) | DescKind::MissingKey | DescKind::MissingFile => {
@@ -109,6 +132,14 @@ pub fn expect(s: &Scenario) -> Expect {
         match s.build.kind {
             // a returned value that cannot be written down is an error after the callback
             BuildKind::Ok if s.build.launch.as_ref().is_some_and(super::script::LaunchSpec::has_unrepresentable_value) => Expect::CallbackError,
+            // an output that cannot be written (a directory is in its place)
+            BuildKind::Ok
+                if provided_outputs(&s.build)
+                    .iter()
+                    .any(|o| s.preexisting.iter().any(|(p, d)| p == o && d == PREEXISTING_DIR)) =>
+            {
+                Expect::CallbackError
+            }
             BuildKind::Ok => Expect::BuildOk,
             _ => Expect::CallbackError,
         }
@@ -282,6 +313,15 @@ pub fn generate(seed: u64) -> Scenario {
                 .push((path.to_string(), format!("stale = \"{}\"\n", r.below(1000))));
         }
     }
+    // sometimes directories sit where outputs belong (several at once)
+    if r.chance(1, 10) {
+        for path in ["layers/launch.toml", "layers/build.sbom.cdx.json", "layers/build.sbom.syft.json", "layers/launch.sbom.spdx.json", "layers/launch.sbom.cdx.json"] {
+            if r.bool() {
+                s.preexisting.retain(|(p, _)| p != path);
+                s.preexisting.push((path.to_string(), PREEXISTING_DIR.to_string()));
+            }
+        }
+    }
     s
 }
 
@@ -345,7 +385,11 @@ pub fn execute_with(
         InputKind::Missing => {}
     }
     for (p, data) in &s.preexisting {
-        std::fs::write(root.join(p), data).map_err(|e| e.to_string())?;
+        if data == PREEXISTING_DIR {
+            std::fs::create_dir_all(root.join(p)).map_err(|e| e.to_string())?;
+        } else {
+            std::fs::write(root.join(p), data).map_err(|e| e.to_string())?;
+        }
     }
     let mut env: Vec<(String, String)> = Vec::new();
     let mut put = |k: &str, v: String| {
